@@ -281,7 +281,8 @@ def plan(quick):
     return [("core", 4, 3), ("ext", 3, 3), ("forms", 3, 0)]
 
 
-def run_histories(run, quick):
+def history_items(run, quick):
+    """Reference observations (kept in G for the forked workers) and the list of history shards."""
     G["ref"] = {}
     items = []
     for poolname, maxlen, vlen in plan(quick):
@@ -309,7 +310,11 @@ def run_histories(run, quick):
             value_checked_up_to_length=vlen,
             equal_pairs_on_fresh_pool=sum(1 for r in base.values() if r is True),
         )
-    for d in pmap(hist_worker, items, seed=run.seed, chunks_per_proc=8):
+    return items
+
+
+def run_histories(run, quick):
+    for d in pmap(hist_worker, history_items(run, quick), seed=run.seed, chunks_per_proc=8):
         run.merge(d)
 
 
